@@ -494,7 +494,8 @@ func c12Alphabet(w *World, k Kind) []func() {
 		ops = append(ops, func() { w.Write(v, k, []uint64{small(k, 5), small(k, 6), small(k, 4)}) })
 		for _, s := range live {
 			s := s
-			if w.views[s].Channels() == b.Channels() && (s == v || b.Len()%maxInt(1, b.Channels()) == 0) {
+			partial := b.Channels() > 0 && (b.Len()%b.Channels() != 0 || w.views[s].Len()%b.Channels() != 0)
+			if w.views[s].Channels() == b.Channels() && (!partial || b.Cap() >= b.Len()+w.views[s].Len()) {
 				ops = append(ops, func() { w.Append(v, s) })
 			}
 		}
@@ -605,7 +606,8 @@ func genC12(w *World, r *Rng, tier string) {
 					}
 				}
 				s2 := cands[r.Intn(len(cands))]
-				if b.Channels() > 0 && (b.Len()%b.Channels() != 0 || w.views[s2].Len()%b.Channels() != 0) {
+				if b.Channels() > 0 && (b.Len()%b.Channels() != 0 || w.views[s2].Len()%b.Channels() != 0) &&
+					b.Cap() < b.Len()+w.views[s2].Len() {
 					continue // growth of a partially filled frame is outside the property (and C03)
 				}
 				w.Append(v, s2)
